@@ -56,6 +56,39 @@ mbws.time = _SrvClock()
 mbserver.random = _SrvRandom()
 mbserver.generate_mailbox_id = _gen_mailbox_id
 
+# The reference server refuses a third side ("crowded").  The documented protocol does not require that of a server, so a
+# scenario may lift the limit (cfg crowd_limit=None): everything else is still the reference server's logic.
+_orig_open_mailbox = mbserver.AppNamespace.open_mailbox
+_orig_claim_nameplate = mbserver.AppNamespace.claim_nameplate
+
+
+def _crowd_lifted():
+    w = CTX.world
+    return w is not None and "crowd_limit" in getattr(w, "cfg", {}) and w.cfg["crowd_limit"] is None
+
+
+def _open_mailbox(self, mailbox_id, side, when):
+    try:
+        return _orig_open_mailbox(self, mailbox_id, side, when)
+    except mbserver.CrowdedError:
+        if not _crowd_lifted():
+            raise
+        return self._mailboxes[mailbox_id]
+
+
+def _claim_nameplate(self, name, side, when):
+    try:
+        return _orig_claim_nameplate(self, name, side, when)
+    except mbserver.CrowdedError:
+        if not _crowd_lifted():
+            raise
+        row = self._db.execute("SELECT * FROM `nameplates` WHERE `app_id`=? AND `name`=?", (self._app_id, name)).fetchone()
+        return row["mailbox_id"]
+
+
+mbserver.AppNamespace.open_mailbox = _open_mailbox
+mbserver.AppNamespace.claim_nameplate = _claim_nameplate
+
 
 class _FakeFactory:
     def __init__(self, server):
